@@ -86,6 +86,11 @@ type Sim struct {
 // NewSim forks the base world. Key DIDs for all accounts are pre-registered in s.Dids
 // (index i = did:key of account i).
 func NewSim(t TB, prop string, oracles ...Oracle) *Sim {
+	return newSim(t, prop, true, oracles...)
+}
+
+// newSim with begin=false leaves the first block unopened (L3 tests open it with the replicas' seed).
+func newSim(t TB, prop string, begin bool, oracles ...Oracle) *Sim {
 	w, err := BaseWorld()
 	if err != nil {
 		infra("base world: %v", err)
@@ -95,11 +100,21 @@ func NewSim(t TB, prop string, oracles ...Oracle) *Sim {
 		did := chain.KeyDid(a.Priv)
 		s.Dids = append(s.Dids, &DidRef{Kind: "key", Acct: i, Did: did, Kid: chain.KeyDidKid(did), Priv: a.Priv})
 	}
+	if begin {
+		if err := s.C.BeginBlock(); err != nil {
+			s.liveness(err)
+		}
+	}
+	s.Last = s.C.Snap()
+	return s
+}
+
+// OpenFirstBlock opens the first block of a Sim created with begin=false.
+func (s *Sim) OpenFirstBlock() {
 	if err := s.C.BeginBlock(); err != nil {
 		s.liveness(err)
 	}
 	s.Last = s.C.Snap()
-	return s
 }
 
 func (s *Sim) Label(l string) { s.Labels[l]++ }
